@@ -66,3 +66,110 @@ def _twin(sc, tr):
 
 
 t2_tasks(PROP, "twin", [("stage,custom", "", {})], [_twin], twin="twin:the engine never unstages a device itself")
+
+
+# ------------------------------------------------------------------------------------------------ T1: the real RunBundler's monitor bookkeeping
+# The T2 tasks above use RunBundler's contract; this is the induction that establishes it on the real bundler, over arbitrary histories of
+# monitor / unmonitor / suspend / restore / clear / close: INV = a monitored device holds exactly one subscription of the run's callback
+# unless the monitors are suspended (then none), an unmonitored device none; every step re-establishes INV, restore always ends the
+# suspension, and close_run / clear_monitors leave no subscription and no monitor behind.
+from .C41 import monitored, bundler_setup, Q as QB, IMS   # noqa: E402
+from .bundler_lib import call_async                       # noqa: E402
+from .re_lib import make_re                               # noqa: E402
+from .bundler_lib import Env, Ready                       # noqa: E402
+
+M_INV = f"{QB}#invariant[a monitored device holds one subscription unless the run's monitors are suspended (then none); an unmonitored device none]"
+M_RES = f"{QB}.restore_monitors#ensures[ends the suspension (whether or not anything is monitored) and re-subscribes each monitor exactly once]"
+M_END = f"{QB}.close_run#ensures[no subscription and no monitor of the run is left (also via clear_monitors)]"
+
+
+@task("bundler.monitor_histories", PROP, functions=[f"{QB}.monitor", f"{QB}.unmonitor", f"{QB}.suspend_monitors", f"{QB}.restore_monitors",
+                                                    f"{QB}.clear_monitors", f"{QB}.close_run"], expect=[M_INV, M_RES, M_END])
+def monitor_histories(I):
+    w = I.w
+    env, b = bundler_setup(I)
+    d, st = monitored(I, w, b, "sig")
+    d2, st2 = monitored(I, w, b, "sig2")
+    rp = {"replay": "monitors.histories"}
+    # an arbitrary reachable state (built by the real operations): sig monitored or not, monitors suspended or not
+    hist = []
+    if w.choose([True, False], "sig monitored"):
+        call_async(I, I.getattr(b, "monitor"), MsgVal("monitor", d, (), {"name": "mon"}, None))
+        hist.append("monitor sig")
+    if w.choose([False, True], "suspended (engine paused / suspended)"):
+        call_async(I, I.getattr(b, "suspend_monitors"))
+        hist.append("suspend")
+        if w.choose([False, True], "and restored again"):
+            call_async(I, I.getattr(b, "restore_monitors"))
+            hist.append("restore")
+
+    def suspended():
+        return bool(b.attrs.get("_monitors_suspended", False))
+
+    def inv():
+        ok = True
+        for dev, s in ((d, st), (d2, st2)):
+            want = (0 if suspended() else 1) if dev in b._monitor_params else 0
+            ok = ok and s["subs"] == want
+        return ok
+    pre_ok = inv()
+    op = w.choose(["monitor sig2", "unmonitor sig", "suspend", "restore", "clear_monitors", "close_run"], "operation")
+    hist.append(op)
+    info = dict(rp, history=list(hist))
+    if op == "monitor sig2":
+        if suspended():
+            raise PathEnd("no plan message runs while the engine is paused; inside a suspension the suspender's own plans do not monitor")
+        r = call_async(I, I.getattr(b, "monitor"), MsgVal("monitor", d2, (), {"name": "mon2"}, None))
+        w.check(M_INV, pre_ok and r[0] == "ok" and inv() and d2 in b._monitor_params, info)
+    elif op == "unmonitor sig":
+        r = call_async(I, I.getattr(b, "unmonitor"), MsgVal("unmonitor", d, (), {}, None))
+        if "monitor sig" in hist:
+            w.check(M_INV, pre_ok and r[0] == "ok" and inv() and d not in b._monitor_params and st["subs"] == 0, info)
+        else:
+            w.check(M_INV, pre_ok and r[0] == "raise" and exc_is(I, r[1], IMS) and inv(), info)
+    elif op == "suspend":
+        call_async(I, I.getattr(b, "suspend_monitors"))
+        w.check(M_INV, pre_ok and inv() and suspended() and st["subs"] == 0, info)
+    elif op == "restore":
+        call_async(I, I.getattr(b, "restore_monitors"))
+        w.check(M_RES, pre_ok and inv() and not suspended() and st["subs"] == (1 if "monitor sig" in hist else 0), info)
+    else:
+        if op == "clear_monitors":
+            call_method(I, b, "clear_monitors")
+        else:
+            r = call_async(I, I.getattr(b, "close_run"), MsgVal("close_run", None, (), {}, None))
+            pre_ok = pre_ok and r[0] == "ok"
+        left = len(b._monitor_params)
+        call_async(I, I.getattr(b, "restore_monitors"))          # a late restore must not resurrect anything
+        w.check(M_END, pre_ok and st["subs"] == 0 and st2["subs"] == 0 and left == 0 and len(b._monitor_params) == 0, info)
+
+
+CR = f"{RE}._close_run#ensures[a run whose close fails stays registered, so the engine's clean-up still sees it (its monitors, its stop document)]"
+
+
+@task("engine._close_run.failure", PROP, functions=[f"{RE}._close_run"], expect=[CR])
+def close_run_failure(I):
+    w = I.w
+    env = Env(I)
+    boom = Obj(BUILTIN_CLASSES["ValueError"], {"args": ("clear_sub failed",), "__cause__": None}, label="device_error")
+    calls = []
+
+    def close(I_, o, a, k):
+        calls.append("close_run")
+        return Ready(None, exc=boom)
+    bad = Opaque("bundler[bad]", {"token": "bundler", "truth": True, "isinstance_default": False, "attrs": {"run_is_open": True, "bundling": False},
+                                  "methods": {"close_run": close, "reset_checkpoint_state": lambda I_, o, a, k: None}})
+    other = Opaque("bundler[other]", {"token": "bundler", "truth": True, "isinstance_default": False, "attrs": {"run_is_open": True, "bundling": False},
+                                      "methods": {"reset_checkpoint_state": lambda I_, o, a, k: None}})
+    key = w.choose([None, "a"], "run key")
+    re_ = make_re(I, env, _run_bundlers={key: bad, "other": other}, _msg_cache=None)
+    I.call_hooks[f"{RE}._close_run_trace"] = lambda I_, f, a, k: _ret_none()
+    r = call_async(I, I.getattr(re_, "_close_run"), MsgVal("close_run", None, (), {}, key))
+    reg = I.getattr(re_, "_run_bundlers")
+    w.check(CR, r[0] == "raise" and r[1] is boom and key in reg and reg[key] is bad and "other" in reg and calls == ["close_run"],
+            {"replay": "monitors.close_run_failure", "key": key})
+
+
+def _ret_none():
+    return None
+    yield
